@@ -115,9 +115,30 @@ func runC02(ctx *Ctx) *Report {
 			}
 		}
 	}
+	// the same stream in massive mode: verdict relation to simple mode + no silent loss (real code)
+	var mcases []Case
+	for i, c := range cases {
+		if i%4 != 0 && !ctx.Thorough {
+			continue
+		}
+		mc := newCase("massive-verdict")
+		mc.Doc, mc.DocText, mc.Note = c.Doc, c.DocText, c.Note
+		mc.Mode = []string{"walk", "text", "json"}[i%3]
+		for _, r := range strings.Split(string(unhx(c.Doc)), "\n") {
+			if !isBlankGo(r) {
+				mc.Texts = append(mc.Texts, textOf(r))
+			}
+		}
+		mcases = append(mcases, mc)
+	}
 	rep.Exhaustive = true
 	rep.Notes = append(rep.Notes, "every malformation class at every row of every forest ≤ "+itoa(n)+" nodes over 2 names, 4 spellings rotating, 6 output modes rotating")
 	runCasesClass(rep, cases, ctx.Workers)
+	parallel(mcases, ctx.Workers/2+1, func(m *Model, c Case) {
+		diffs := runMassiveVerdict(c)
+		rep.Record(c, caseKey(c), c.Note != "well-formed", diffs)
+		rep.Count("massive:" + c.Mode)
+	})
 	return rep
 }
 
